@@ -773,6 +773,9 @@ META = (META[0] + ' ABS (chrono::abs per ordering of d against zero()).', META[1
 META = (META[0] + ' REPCAST (the duration templates never convert a tick count to a fixed builtin arithmetic type).', META[1])
 
 
+META = (META[0] + ' DEPNAME (a member named on an object of a chrono class template inside a template - not looked up until instantiation - is declared by that template or a base).', META[1])
+
+
 def run(chk, tier):
     quick = tier == "quick"
     db = D.load("checks")
@@ -785,6 +788,9 @@ def run(chk, tier):
     compound_rule(chk, db)
     abs_rule(chk, db)
     repcast_rule(chk, db)
+    from ..rules import extra11 as _X11
+    if _X11.check(chk, db, ['_chrono/']) < 10:      # DEPNAME
+        chk.analysis_broken('DEPNAME: fewer than 10 member accesses on objects of a chrono class template found (floor 10)')
     from ..rules import rel as _REL
     nrel = _REL.check(chk, db, ["_chrono/time_point.hpp", "_chrono/duration.hpp"])      # REL: the relational operators over the ordering domain
     if chk.rule_instances.get("REL", 0) < 8:
